@@ -572,17 +572,28 @@ func ReadDirent(fd int, buf []byte) (int, error) {
 		return -1, e
 	}
 	in := k.Inodes[d.Ino]
-	names := []string{".", ".."}
+	// The cursor is the last name returned, not an index: as POSIX requires, an entry that is
+	// neither added nor removed during the scan is returned exactly once, whatever is created
+	// or deleted around it; entries created during the scan may or may not appear.
+	var names []string
+	if d.DirPos < 1 {
+		names = append(names, ".")
+	}
+	if d.DirPos < 2 {
+		names = append(names, "..")
+	}
 	var real []string
 	for n := range in.Entries {
-		real = append(real, n)
+		if d.DirLast == "" || n > d.DirLast {
+			real = append(real, n)
+		}
 	}
 	sort.Strings(real)
 	names = append(names, real...)
 	n := 0
 	var returned []string
-	for d.DirPos < len(names) {
-		name := names[d.DirPos]
+	for len(names) > 0 {
+		name := names[0]
 		reclen := (19 + len(name) + 1 + 7) &^ 7
 		if n+reclen > len(buf) {
 			if n == 0 {
@@ -609,9 +620,11 @@ func ReadDirent(fd int, buf []byte) (int, error) {
 		rec[18] = typ
 		copy(rec[19:], name)
 		n += reclen
+		names = names[1:]
 		d.DirPos++
 		if name != "." && name != ".." {
 			returned = append(returned, name)
+			d.DirLast = name
 		}
 	}
 	k.leave(Call{Name: "getdents64", Args: []any{fd}, Ret: []any{n > 0, returned}})
